@@ -8,7 +8,11 @@ A *script* is a list of ops (all times in ticks of 62.5 ms):
     ["connect", a]             a new HAPServerProtocol gets connection_made (peer address #a)
     ["verify", p]              connection #p holds a verified session (handler.is_encrypted)
     ["put", p, x, ev, val, close]   PUT /characteristics for characteristic #x fed to data_received
-    ["get", p, x]              GET /characteristics?id=1.<iid x>
+    ["putm", p, [[x, ev, val], ...], close]   ONE PUT /characteristics with several queries (scene write)
+    ["get", p, x]              GET /characteristics?id=<aid>.<iid> of characteristic #x
+    ["world", "bridge"]        (configuration, right after the first advance) the accessory is a Bridge with two
+                               accessories built from the same definition: characteristics #0..3 live on aid 2,
+                               #4..7 on aid 3, and #x / #x+4 share their iid
     ["prepare", p, pid]        PUT /prepare
     ["snapshot", p]            POST /resource (delayed response)
     ["resp_ready", p]          the snapshot of #p completes
@@ -148,15 +152,20 @@ BUTTON_UUIDS = ("00000126-0000-1000-8000-0026BB765291", "00000073-0000-1000-8000
 CHAR_UUIDS = [None, None, "00000073-0000-1000-8000-0026BB765291", "00000126-0000-1000-8000-0026BB765291"]
 
 
-def code_tables():
-    """which of the four test characteristics the CODE treats as immediate / always-null
+def is_bridge(ops) -> bool:
+    return any(op[0] == "world" and op[1] == "bridge" for op in ops)
+
+
+def code_tables(bridge=False):
+    """which of the test characteristics the CODE treats as immediate / always-null
     (module tables of pyhap.characteristic; fed to the model as its configuration)"""
     import uuid
 
     import pyhap.characteristic as ch
 
-    imm = [x for x, u in enumerate(CHAR_UUIDS) if u and uuid.UUID(u) in ch.IMMEDIATE_NOTIFY]
-    nul = [x for x, u in enumerate(CHAR_UUIDS) if u and uuid.UUID(u) in ch.ALWAYS_NULL]
+    kinds = CHAR_UUIDS * (2 if bridge else 1)
+    imm = [x for x, u in enumerate(kinds) if u and uuid.UUID(u) in ch.IMMEDIATE_NOTIFY]
+    nul = [x for x, u in enumerate(kinds) if u and uuid.UUID(u) in ch.ALWAYS_NULL]
     return imm, nul
 
 
@@ -181,8 +190,9 @@ def model_addr(peer):
 class World:
     """One accessory (4 characteristics), one driver, one server, many connections."""
 
-    def __init__(self, crypto_conns=(), v6=0):
+    def __init__(self, crypto_conns=(), v6=0, bridge=False):
         self.v6 = v6
+        self.bridge = bridge
         import pyhap.accessory_driver as ad
         import pyhap.characteristic as ch
         from pyhap.accessory import Accessory
@@ -220,25 +230,44 @@ class World:
                 return await fut
 
         self.snap_futs = []
-        acc = Acc(self.driver, "Verif")
         loader = self.driver.loader
-        svc = Service(ch.UUID("00000043-0000-1000-8000-0026BB765291"), "Lightbulb")
-        self.chars = [
-            loader.get_char("Brightness"),
-            loader.get_char("TargetPosition"),
-            loader.get_char("ProgrammableSwitchEvent"),
-            ch.Characteristic(
-                "ButtonEvent", ch.CHAR_BUTTON_EVENT,
-                {"Format": "uint8", "Permissions": ["pr", "pw", "ev"], "minValue": 0, "maxValue": 100},
-            ),
-        ]
-        for c in self.chars:
-            svc.add_characteristic(c)
-        acc.add_service(svc)
-        self.driver.add_accessory(acc)
-        self.acc = acc
-        self.iids = [acc.iid_manager.get_iid(c) for c in self.chars]
-        self.iid_to_x = {iid: x for x, iid in enumerate(self.iids)}
+
+        def build(acc):
+            svc = Service(ch.UUID("00000043-0000-1000-8000-0026BB765291"), "Lightbulb")
+            chars = [
+                loader.get_char("Brightness"),
+                loader.get_char("TargetPosition"),
+                loader.get_char("ProgrammableSwitchEvent"),
+                ch.Characteristic(
+                    "ButtonEvent", ch.CHAR_BUTTON_EVENT,
+                    {"Format": "uint8", "Permissions": ["pr", "pw", "ev"], "minValue": 0, "maxValue": 100},
+                ),
+            ]
+            for c in chars:
+                svc.add_characteristic(c)
+            acc.add_service(svc)
+            return chars
+
+        if bridge:
+            from pyhap.accessory import Bridge
+
+            top = Bridge(self.driver, "VerifBridge")
+            accs = [Acc(self.driver, "Light %d" % i) for i in (2, 3)]
+            self.chars, self.ids = [], []
+            for a in accs:
+                cs = build(a)  # same definition: the iids coincide across the accessories
+                top.add_accessory(a)
+                self.chars += cs
+                self.ids += [(a.aid, a.iid_manager.get_iid(c)) for c in cs]
+            self.driver.add_accessory(top)
+            self.snap_aid = accs[0].aid
+        else:
+            acc = Acc(self.driver, "Verif")
+            self.chars = build(acc)
+            self.driver.add_accessory(acc)
+            self.snap_aid = 1
+            self.ids = [(acc.aid, acc.iid_manager.get_iid(c)) for c in self.chars]
+        self.id_to_x = {k: x for x, k in enumerate(self.ids)}
         self.crypto_conns = set(crypto_conns)
         self.protos = []  # object index -> HAPServerProtocol
         self.transports = []
@@ -290,6 +319,14 @@ class World:
             head += "Connection: close\r\n"
         return head.encode() + b"\r\n" + body
 
+    def _query(self, x, ev, val):
+        q = {"aid": self.ids[x][0], "iid": self.ids[x][1]}
+        if ev is not None:
+            q["ev"] = bool(ev)
+        if val is not None:
+            q["value"] = val
+        return q
+
     def feed(self, p, data: bytes):
         proto = self.protos[p]
         if self.transports[p].closing or p in self.lost:
@@ -335,27 +372,29 @@ class World:
                     key = bytes([p + 1]) * 32
                     self.protos[p].hap_crypto = HAPCrypto(key)
                     self.ctrl_crypto[p] = ControllerCipher(key)
+        elif k == "world":
+            pass  # read by run_script before the world is built
+        elif k == "putm":
+            p = op[1]
+            if p < len(self.protos):
+                body = json.dumps({"characteristics": [self._query(x, ev, val) for x, ev, val in op[2]]}).encode()
+                self.feed(p, self._http("PUT", "/characteristics", body, op[3]))
         elif k in ("put", "get", "prepare", "snapshot", "bad_http", "bad_frame"):
             p = op[1]
             if p >= len(self.protos):
                 return
             if k == "put":
                 _, _, x, ev, val, close = op
-                q = {"aid": 1, "iid": self.iids[x]}
-                if ev is not None:
-                    q["ev"] = bool(ev)
-                if val is not None:
-                    q["value"] = val
-                body = json.dumps({"characteristics": [q]}).encode()
+                body = json.dumps({"characteristics": [self._query(x, ev, val)]}).encode()
                 self.feed(p, self._http("PUT", "/characteristics", body, close))
             elif k == "get":
-                self.feed(p, self._http("GET", "/characteristics?id=1.%d" % self.iids[op[2]]))
+                self.feed(p, self._http("GET", "/characteristics?id=%d.%d" % self.ids[op[2]]))
             elif k == "prepare":
                 body = json.dumps({"ttl": 8000, "pid": op[2]}).encode()
                 self.feed(p, self._http("PUT", "/prepare", body))
             elif k == "snapshot":
                 n = len(self.snap_futs)
-                body = json.dumps({"aid": 1, "image-width": 1, "image-height": 1}).encode()
+                body = json.dumps({"aid": self.snap_aid, "image-width": 1, "image-height": 1}).encode()
                 self.feed(p, self._http("POST", "/resource", body))
                 lp.drain()  # let the task start (arms its timeout, creates the future)
                 if len(self.snap_futs) > n:
@@ -428,7 +467,7 @@ class World:
         topics = {}
         for t, subs in self.driver.topics.items():
             aid, iid = t.split(".")
-            topics[str(self.iid_to_x.get(int(iid), t))] = sorted(model_addr(s) for s in subs)
+            topics[str(self.id_to_x.get((int(aid), int(iid)), t))] = sorted(model_addr(s) for s in subs)
         prep = {str(model_addr(k)): sorted(v.keys()) for k, v in self.driver.prepared_writes.items()}
         vals = [c.value for c in self.chars]
         return {"reg": reg, "topics": topics, "prepared": prep, "values": vals}
@@ -449,13 +488,13 @@ class World:
                     except Exception as ex:  # noqa: BLE001
                         res.append([tick, "undecryptable", type(ex).__name__, opi])
                         continue
-                for m in parse_messages(data, self.iid_to_x):
+                for m in parse_messages(data, self.id_to_x):
                     res.append([tick] + m + [opi])
             out[idx] = res
         return out
 
 
-def parse_messages(data: bytes, iid_to_x):
+def parse_messages(data: bytes, id_to_x):
     """split a plaintext write into HTTP/EVENT messages -> [kind, ...] lists"""
     msgs = []
     while data:
@@ -486,7 +525,7 @@ def parse_messages(data: bytes, iid_to_x):
             chars = json.loads(body)["characteristics"]
             ents = []
             for c in chars:
-                ents.append([iid_to_x.get(c["iid"], -c["iid"]) if c["aid"] == 1 else -1000, c.get("value")])
+                ents.append([id_to_x.get((c["aid"], c["iid"]), -1000 * c["aid"] - c["iid"]), c.get("value")])
             msgs.append(["event", ents])
         elif status[0].startswith(b"HTTP/"):
             code = int(status[1])
@@ -496,7 +535,7 @@ def parse_messages(data: bytes, iid_to_x):
             elif ctype.startswith(b"application/hap+json"):
                 j = json.loads(body)
                 if "characteristics" in j:
-                    b = {"chars": [[iid_to_x.get(c["iid"], -1), c.get("value", "absent"), c.get("status", 0)] for c in j["characteristics"]]}
+                    b = {"chars": [[id_to_x.get((c["aid"], c["iid"]), -1), c.get("value", "absent"), c.get("status", 0)] for c in j["characteristics"]]}
                 else:
                     b = j
             else:
@@ -509,7 +548,7 @@ def parse_messages(data: bytes, iid_to_x):
 
 def run_script(ops, crypto_conns=(), want_digests=True, v6=0):
     """Run a script on the real code. Returns {"log": per-object decoded log, "digests": [...]}"""
-    w = World(crypto_conns, v6)
+    w = World(crypto_conns, v6, bridge=is_bridge(ops))
     try:
         digests = []
         for i, op in enumerate(ops):
